@@ -1,5 +1,8 @@
 use super::optimization_common::{BinaryBindedValue, BindedValue, IndexAccessBindedValue};
-use samlang_ast::mir::{Binary, Function, Statement};
+use samlang_ast::{
+  hir::BinaryOperator,
+  mir::{Binary, Function, Statement},
+};
 use samlang_heap::TempPStrCounter;
 use std::collections::BTreeSet;
 
@@ -38,7 +41,11 @@ fn optimize_stmts(
         collector.push(Statement::Not { name, operand });
       }
       Statement::Binary(Binary { name, operator, e1, e2 }) => {
-        set.insert(BindedValue::Binary(BinaryBindedValue { operator, e1, e2 }));
+        // A division can trap: hoisting it in front of an if-else would move the trap before the effects
+        // (e.g. prints) that precede it inside the branches.
+        if !matches!(operator, BinaryOperator::DIV | BinaryOperator::MOD) {
+          set.insert(BindedValue::Binary(BinaryBindedValue { operator, e1, e2 }));
+        }
         collector.push(Statement::Binary(Binary { name, operator, e1, e2 }));
       }
       Statement::IndexedAccess { name, type_, pointer_expression, index } => {
